@@ -382,8 +382,16 @@ pub fn generate(rng: &mut Rng, opts: &GenOpts, tag: &str) -> Value {
                 // short slots one after the other at one location: a vehicle can visit several
                 len = if ties { grid } else { rng.range(20, 60) * 60 };
                 if let Some((e, cl)) = chain_end {
-                    l = cl;
-                    start = e + shunt_min + if ties { 0 } else { rng.range(0, 3) * 600 };
+                    if nloc >= 2 && rng.chance(1, 2) {
+                        // the next slot of the chain is at another location, reachable exactly
+                        // at / just around the dead-head threshold
+                        l = (cl + rng.usize(1, nloc - 1)) % nloc;
+                        let off = if ties { *rng.pick(&[0, shunt_dh, 2 * shunt_dh]) } else { *rng.pick(&[0, shunt_dh, 2 * shunt_dh, (2 * shunt_dh - 60).max(0), 2 * shunt_dh + 60]) };
+                        start = e + durations[cl][l] + off;
+                    } else {
+                        l = cl;
+                        start = e + shunt_min + if ties { 0 } else { rng.range(0, 3) * 600 };
+                    }
                 }
                 chain_end = Some((start + len, l));
             }
@@ -673,6 +681,10 @@ pub fn generate(rng: &mut Rng, opts: &GenOpts, tag: &str) -> Value {
                 }
             }
         }
+    }
+    // one instance in eight carries hostile ids
+    if rng.chance(1, 8) {
+        hostile_ids(rng, &mut root, tag);
     }
     // one instance in ten carries values at the far end of the format
     if rng.chance(1, 10) || std::env::var("VERIF_EXTREME_KIND").is_ok() {
@@ -1198,10 +1210,114 @@ pub fn depot_squeeze_network(rng: &mut Rng, tag: &str) -> Value {
     root
 }
 
+/// hostile ids: pairs of routes (and pairs of departures) whose (parent id, child id) pairs
+/// collide under concatenation with a separator - route `P` with segment `Q_0` versus route `P_Q`
+/// with segment `0` - plus ids that are prefixes of each other and ids shared across namespaces
+/// (a location named like a vehicle type). Every id stays unique within its own namespace and
+/// keeps the instance tag as prefix.
+pub fn hostile_ids(rng: &mut Rng, x: &mut Value, tag: &str) -> bool {
+    let sep = *rng.pick(&["_", "-", ".", ":", "/", "|", " ", ""]);
+    let mut changed = false;
+    // ---- routes and their segments
+    let nroutes = x["routes"].as_array().map(|a| a.len()).unwrap_or(0);
+    if nroutes >= 2 {
+        let a = rng.usize(0, nroutes - 1);
+        let b = (a + rng.usize(1, nroutes - 1)) % nroutes;
+        let p = format!("{}.K", tag);
+        let q = "S".to_string();
+        let old_a = x["routes"][a]["id"].as_str().unwrap_or("").to_string();
+        let old_b = x["routes"][b]["id"].as_str().unwrap_or("").to_string();
+        let new_a = p.clone();
+        let new_b = format!("{}{}{}", p, sep, q);
+        // segment renames per route: old id -> new id
+        let mut seg_map_a = std::collections::BTreeMap::new();
+        let mut seg_map_b = std::collections::BTreeMap::new();
+        if let Some(segs) = x["routes"][a]["segments"].as_array_mut() {
+            for (k, sg) in segs.iter_mut().enumerate() {
+                let old = sg["id"].as_str().unwrap_or("").to_string();
+                let new = format!("{}{}{}", q, sep, k);
+                seg_map_a.insert(old, new.clone());
+                sg["id"] = json!(new);
+            }
+        }
+        if let Some(segs) = x["routes"][b]["segments"].as_array_mut() {
+            for (k, sg) in segs.iter_mut().enumerate() {
+                let old = sg["id"].as_str().unwrap_or("").to_string();
+                let new = format!("{}", k);
+                seg_map_b.insert(old, new.clone());
+                sg["id"] = json!(new);
+            }
+        }
+        x["routes"][a]["id"] = json!(new_a);
+        x["routes"][b]["id"] = json!(new_b);
+        if let Some(deps) = x["departures"].as_array_mut() {
+            for d in deps.iter_mut() {
+                let r = d["route"].as_str().unwrap_or("").to_string();
+                let (new_r, map) = if r == old_a {
+                    (new_a.clone(), &seg_map_a)
+                } else if r == old_b {
+                    (new_b.clone(), &seg_map_b)
+                } else {
+                    continue;
+                };
+                d["route"] = json!(new_r);
+                if let Some(segs) = d["segments"].as_array_mut() {
+                    for sg in segs.iter_mut() {
+                        let old = sg["routeSegment"].as_str().unwrap_or("").to_string();
+                        if let Some(n) = map.get(&old) {
+                            sg["routeSegment"] = json!(n);
+                        }
+                    }
+                }
+            }
+        }
+        changed = true;
+    }
+    // ---- departures and their segments (segment ids stay globally unique)
+    let ndeps = x["departures"].as_array().map(|a| a.len()).unwrap_or(0);
+    if ndeps >= 2 {
+        let a = rng.usize(0, ndeps - 1);
+        let b = (a + rng.usize(1, ndeps - 1)) % ndeps;
+        let p = format!("{}.J", tag);
+        let q = "V";
+        x["departures"][a]["id"] = json!(p.clone());
+        x["departures"][b]["id"] = json!(format!("{}{}{}", p, sep, q));
+        let mut n = 0;
+        if let Some(segs) = x["departures"][b]["segments"].as_array_mut() {
+            for sg in segs.iter_mut() {
+                sg["id"] = json!(format!("{}.x{}", tag, n));
+                n += 1;
+            }
+        }
+        if let Some(segs) = x["departures"][a]["segments"].as_array_mut() {
+            for (k, sg) in segs.iter_mut().enumerate() {
+                // collides with segment k of departure b under (departure id + sep + segment id)
+                sg["id"] = json!(format!("{}{}{}.x{}", q, sep, tag, k));
+            }
+        }
+        changed = true;
+    }
+    // ---- the same id in two namespaces: the first location is named like the first vehicle type
+    if rng.chance(1, 2) {
+        if let (Some(t0), Some(l0)) = (x["vehicleTypes"][0]["id"].as_str().map(|s| s.to_string()), x["locations"][0]["id"].as_str().map(|s| s.to_string())) {
+            let text = serde_json::to_string(x).unwrap();
+            // rename location l0 -> t0 everywhere a location is referenced (locations, origins,
+            // destinations, depot/slot locations, matrix indices): all are plain string values
+            // equal to l0, and no other namespace uses l0
+            let renamed = text.replace(&format!("\"{}\"", l0), &format!("\"{}\"", t0));
+            if let Ok(v) = serde_json::from_str::<Value>(&renamed) {
+                *x = v;
+                changed = true;
+            }
+        }
+    }
+    changed
+}
+
 /// values at the far end of what the input format allows (all counts are 32-bit in the model):
 /// depot capacities, formation limits and track counts around 2^31 and 2^32 - 1, a departure
 /// with ~10^9 passengers on a segment with a formation limit, vehicle capacities beyond 2^31,
-/// service trips of thousands of kilometres, cost coefficients x10^4, a huge maintenance
+/// service trips of thousands of kilometres, cost coefficients up to 6*10^5 per second, a huge maintenance
 /// allowance. Returns the names of the applied kinds.
 pub fn apply_extremes(rng: &mut Rng, x: &mut Value) -> Vec<&'static str> {
     const HUGE: [u64; 5] = [2147483647, 2147483648, 3000000000, 4294967295, 4294967294];
@@ -1327,7 +1443,10 @@ pub fn apply_extremes(rng: &mut Rng, x: &mut Value) -> Vec<&'static str> {
                 if let Some(c) = x["parameters"].get_mut("costs").and_then(|c| c.as_object_mut()) {
                     for (_, v) in c.iter_mut() {
                         if let Some(n) = v.as_u64() {
-                            *v = json!(n.min(100000) * 10000);
+                            // never beyond 6*10^5 per second, also when applied repeatedly or
+                            // on top of the x100 instances (the flow builder's own overflow
+                            // guard refuses instances far beyond that)
+                            *v = json!(n.saturating_mul(10000).min(600_000));
                         }
                     }
                     applied.push("cost_coefficients_x10000");
